@@ -168,6 +168,21 @@ func C19(tier rt.Tier) int {
 						report(n, "SetTree on a used tree object failed: "+err.Error())
 						return
 					}
+					// a tree object whose last ComputeTree was given NO leaves (an empty batch), then loaded: as a fresh one
+					var emptied util.MerkleTree
+					func() {
+						defer func() { _ = recover() }() // what an empty batch does to the object is not judged, only the load after it
+						emptied.ComputeTree(nil)
+						emptied.ComputeTree([]util.Hashable{})
+					}()
+					if err := emptied.SetTree(n, append([]string(nil), tree...)); err != nil {
+						report(n, "SetTree on a tree object that had computed an empty batch failed: "+err.Error())
+						return
+					}
+					if emptied.GetRoot() != root {
+						report(n, fmt.Sprintf("a tree object that had computed an empty batch and was then loaded with SetTree has root %q, the loaded tree's root is %q", emptied.GetRoot(), root))
+						return
+					}
 					// the source object goes on to compute other trees (same size, smaller, larger); exported and
 					// loaded trees must not change. From here on `mt` is a fresh reference tree again.
 					exported := append([]string(nil), tree...)
@@ -211,7 +226,7 @@ func C19(tier rt.Tier) int {
 					// a caller keeps the paths it was given: every path of every object is fetched first (by lookup and by
 					// index), and all of them are verified only afterwards
 					{
-						objs := []*util.MerkleTree{&mt, &mt2, &used}
+						objs := []*util.MerkleTree{&mt, &mt2, &used, &emptied}
 						var kept [][2]*util.MTPath
 						for _, o := range objs {
 							for i := 0; i < n; i++ {
